@@ -4,6 +4,7 @@ import math
 import cmath
 import struct
 import warnings
+import numpy as np
 from fractions import Fraction as Fr
 from .. import common
 from ..runner import Corr, Failure
@@ -189,6 +190,9 @@ def _ulp(x):
     return math.ulp(x)
 
 
+CUSP_SIG = 'ilength/not-inverse/length-from-0-to-just-beyond-a-cusp-misjudged-by-quad'
+
+
 def sample(ctx, budget=1.0, hint=None, broken=None):
     spt = ctx.spt
     P = spt.path
@@ -210,10 +214,47 @@ def sample(ctx, budget=1.0, hint=None, broken=None):
             return sum(curve[i].length() for i in range(k)) + curve[k].length(0, tt)
         return curve.length(0, t)
 
-    for it in range(int(ctx.n(60, 400) * budget)):
+    def cusp_explains(curve, t):
+        """is a failing ilength answer explained by finding F37: the LENGTH the library computes from 0 to t is itself wrong because the
+        interval ends just beyond a cusp of a cubic (checked against a quadrature that is told where the cusp is)?"""
+        try:
+            if not P._quad_available:
+                return False
+            seg, tt, before = curve, t, 0.0
+            if isinstance(curve, P.Path):
+                k, tt = curve.T2t(t)
+                seg = curve[k]
+                before = sum(curve[i].length() for i in range(k))
+            if not isinstance(seg, P.CubicBezier):
+                return False
+            g = np.linspace(0, 1, 4097)
+            sp = np.array([abs(seg.derivative(x_)) for x_ in g])
+            i = int(np.argmin(sp))
+            if sp[i] > 1e-6 * sp.max() or not (0 < g[i] < tt) or tt - g[i] > 0.02:
+                return False
+            # refine the cusp parameter and integrate with the kink as a break point
+            lo_, hi_ = g[max(i - 1, 0)], g[min(i + 1, 4096)]
+            for _ in range(80):
+                m1, m2 = lo_ + (hi_ - lo_) / 3, hi_ - (hi_ - lo_) / 3
+                if abs(seg.derivative(m1)) < abs(seg.derivative(m2)):
+                    hi_ = m2
+                else:
+                    lo_ = m1
+            tstar = (lo_ + hi_) / 2
+            from scipy.integrate import quad as _quad
+            f_ = lambda x_: abs(seg.derivative(x_))
+            ref = _quad(f_, 0, tstar, epsabs=1e-13, epsrel=1e-13, limit=2000)[0] + _quad(f_, tstar, tt, epsabs=1e-13, epsrel=1e-13, limit=2000)[0]
+            lib = seg.length(0, tt)
+            return abs(lib - ref) > 1e-9 * (abs(ref) + 1e-300)
+        except Exception:
+            return False
+
+    for it in range(int(ctx.n(60, 400) * budget) + 1):
         scale = r.choice([1e-3, 1.0, 1.0, 1e2, 1e4, 1e6])
         kind = r.choice(['line', 'quad', 'cubic', 'arc', 'arc', 'path', 'path', 'cusp', 'flat-arc'])
         z0 = complex(r.uniform(-1, 1), r.uniform(-1, 1)) * scale
+        if it == int(ctx.n(60, 400) * budget):
+            kind = 'cusp-witness'       # the recorded witness of finding F37, re-examined on every run
         if kind == 'path':
             segs, cur = [], z0
             for i in range(r.randint(2, 4)):
@@ -222,6 +263,9 @@ def sample(ctx, budget=1.0, hint=None, broken=None):
             if r.random() < 0.3:     # an outline traversed twice: equal segments
                 segs = segs + [P.Line(cur, z0)] + [type(s)(*s.bpoints()) if not isinstance(s, P.Arc) else s for s in segs]
             curve = P.Path(*segs)
+        elif kind == 'cusp-witness':
+            curve = P.CubicBezier((5317.461327265119+5692.732455532132j), (6523.7063277330935+19783.331200753928j), (-1124.7155451117915+13341.154328377017j),
+                                  (12965.883200110004+12134.909327909041j))
         elif kind in ('cusp', 'flat-arc'):
             # small curves whose speed is hard to integrate: a cubic with a cusp (or a retracted handle), a very flat elliptical arc
             k_ = scale * r.choice([1.0, 1.0, 0.3])
@@ -310,8 +354,13 @@ def sample(ctx, budget=1.0, hint=None, broken=None):
             except AssertionError:
                 back = None
             if back is not None and abs(back - s) > res_tol + 1e-9 * L * 0:
-                fail('ilength/not-inverse', 'length(0, ilength(s)) differs from s by more than max(s_tol, resolution of L)',
-                     {'curve': desc, 's': s, 'L': L}, repr(back), repr(s), rep)
+                if cusp_explains(curve, t):
+                    fail(CUSP_SIG, 'with scipy, CubicBezier.length(0, t) is wrong (and not monotone in t) for t just beyond a cusp: the speed has a kink there and '
+                         'quad accepts a first estimate that integrates the smooth continuation of the speed through zero; the bisection of ilength then converges to '
+                         'the parameter where the computed length jumps', {'curve': desc, 's': s, 'L': L}, repr(back), repr(s), rep)
+                else:
+                    fail('ilength/not-inverse', 'length(0, ilength(s)) differs from s by more than max(s_tol, resolution of L)',
+                         {'curve': desc, 's': s, 'L': L}, repr(back), repr(s), rep)
             if prev_t is not None and t < prev_t - 1e-12:
                 fail('ilength/not-monotone', 'ilength is decreasing', {'curve': desc, 's': s}, repr((prev_t, t)), 'non-decreasing', rep)
             prev_t = t
